@@ -396,8 +396,8 @@ pub fn ot_session(seed: u64, name: &str, sid: [u8; 32], a: [Scalar; 2]) -> OtSes
     let tape_a = eot_recv_tape(&mut rr);
     let tape_b = eot_recv_tape(&mut rr);
     let mut sr = rng(seed, &send_stream);
-    let tbs_a: Vec<Scalar> = (0..512).map(|_| Scalar::random(&mut sr)).collect();
-    let tbs_b: Vec<Scalar> = (0..512).map(|_| Scalar::random(&mut sr)).collect();
+    let tbs_a: Vec<Scalar> = (0..512).map(|_| *k256::NonZeroScalar::random(&mut sr)).collect();
+    let tbs_b: Vec<Scalar> = (0..512).map(|_| *k256::NonZeroScalar::random(&mut sr)).collect();
     let mut eta_tape = vec![0u8; 64];
     sr.fill_bytes(&mut eta_tape);
     // the real run
